@@ -36,6 +36,7 @@ print(json.dumps(out))
 
 PREDS = {
     'operator.__eq__': 'PEq',
+    'nbdime.utils.strict_equals': 'PStrictEq',
     'nbdime.diffing.notebooks.compare_cell_approximate': 'PCell 0',
     'nbdime.diffing.notebooks.compare_cell_moderate': 'PCell 1',
     'nbdime.diffing.notebooks.compare_cell_strict': 'PCell 2',
@@ -52,8 +53,43 @@ DIFFERS = {
     'nbdime.diffing.notebooks.diff_ignore': 'DfIgnore',
 }
 
+import ast
+
+def value_compare_fact(relpath, funcname, replace_call):
+    """How does <funcname> decide that two values differ before emitting a replace op?
+    `a != b` -> False (Python ==), `not strict_equals(a, b)` -> True; anything else fails closed."""
+    src = open(os.path.join(REPO, relpath)).read()
+    tree = ast.parse(src)
+    fn = [n for n in ast.walk(tree) if isinstance(n, ast.FunctionDef) and n.name == funcname]
+    if len(fn) != 1: raise GenError('%s: function %s not found exactly once' % (relpath, funcname))
+    hits = []
+    for node in ast.walk(fn[0]):
+        if isinstance(node, ast.If):
+            body_src = ' '.join(ast.unparse(x) for x in node.body)
+            if replace_call in body_src and len(node.body) == 1:
+                hits.append(node.test)
+    if len(hits) != 1: raise GenError('%s.%s: expected one guarded %s, found %d' % (relpath, funcname, replace_call, len(hits)))
+    t = ast.unparse(hits[0])
+    if t == 'avalue != bvalue': return False
+    if t == 'not strict_equals(avalue, bvalue)': return True
+    raise GenError('%s.%s: unrecognised value comparison %r' % (relpath, funcname, t))
+
+STRICT_PROBE = r'''
+import json
+from nbdime.utils import strict_equals
+vals = [None, True, False, 0, 1, 2, 0.0, -0.0, 1.0, 2.0, "a", "", [], {}, [1], [1.0], [True], {"a": 1}, {"a": 1.0}, {"a": True}, [[0]], [[False]]]
+def canon(v): return json.dumps(v, sort_keys=True)
+bad = [(repr(x), repr(y)) for x in vals for y in vals if bool(strict_equals(x, y)) != (canon(x) == canon(y))]
+print(json.dumps(bad))
+'''
+
 def main():
     d = run_in_repo(CODE)
+    dict_strict = value_compare_fact('nbdime/diffing/generic.py', 'diff_dicts', 'di.replace(key, bvalue)')
+    mime_strict = value_compare_fact('nbdime/diffing/notebooks.py', 'add_mime_diff', 'diffbuilder.replace(key, bvalue)')
+    if dict_strict or mime_strict or 'nbdime.utils.strict_equals' in (d['pred_default'] + d['generic_pred_default']):
+        bad = run_in_repo(STRICT_PROBE)
+        if bad: raise GenError('strict_equals is modelled as JSON identity but differs on %r' % bad[:3])
     if not d['cfg_is_tables']:
         raise GenError('notebook_config no longer holds the module-level tables')
     if d['seq_algorithm'] != 'bruteforce':
@@ -81,7 +117,9 @@ def main():
                                               for k, v in sorted(d['differ_table'].items())) + ';')
     lines.append('  c_differ_default := ' + differ(d['differ_default']) + ';')
     lines.append('  c_atomic := ' + coq_list('(%s, %s)' % (coq_str(k), coq_bool(v)) for k, v in sorted(d['atomic'].items())) + ';')
-    lines.append('  c_split_mimes := ' + coq_list(coq_str(m) for m in d['split_mimes']) + ' |}.')
+    lines.append('  c_split_mimes := ' + coq_list(coq_str(m) for m in d['split_mimes']) + ';')
+    lines.append('  c_generic_pred := ' + coq_list(pred(x) for x in d['generic_pred_default']) + ';')
+    lines.append('  c_dict_strict := %s; c_mime_strict := %s |}.' % (coq_bool(dict_strict), coq_bool(mime_strict)))
     lines.append('')
     lines.append('Definition generic_config : config := {|')
     lines.append('  c_predicates := [];')
@@ -90,7 +128,9 @@ def main():
     lines.append('  c_differs := [];')
     lines.append('  c_differ_default := ' + differ(d['generic_differ_default']) + ';')
     lines.append('  c_atomic := [];')
-    lines.append('  c_split_mimes := ' + coq_list(coq_str(m) for m in d['split_mimes']) + ' |}.')
+    lines.append('  c_split_mimes := ' + coq_list(coq_str(m) for m in d['split_mimes']) + ';')
+    lines.append('  c_generic_pred := ' + coq_list(pred(x) for x in d['generic_pred_default']) + ';')
+    lines.append('  c_dict_strict := %s; c_mime_strict := %s |}.' % (coq_bool(dict_strict), coq_bool(mime_strict)))
     lines.append('')
     if d['differ_keys']:
         raise GenError('notebook_differs has explicit keys after reset: %r' % d['differ_keys'])
